@@ -3372,8 +3372,15 @@ AnalyserExternalVariablePtrs::const_iterator Analyser::AnalyserImpl::findExterna
     return std::find_if(mExternalVariables.begin(), mExternalVariables.end(), [=](const auto &ev) {
         auto variable = ev->variable();
 
-        return (owningModel(variable) == model)
-               && (owningComponent(variable)->name() == componentName)
+        if (variable == nullptr) {
+            return false;
+        }
+
+        auto component = owningComponent(variable);
+
+        return (component != nullptr)
+               && (owningModel(variable) == model)
+               && (component->name() == componentName)
                && (variable->name() == variableName);
     });
 }
